@@ -265,7 +265,7 @@ def linear_factory(quick, seed):
 
     def h(ch):
         n = ch.choose("arity", [1, 2, 3])
-        api = ch.choose("api", ["def_linear", "defjvp-same", "defjvp-same-with-None"])
+        api = ch.choose("api", ["def_linear", "defjvp-same", "defjvp-same-with-None", "defjvp-same-argnums"])
         diff = ch.choose("differentiated", [s for r in range(1, n + 1) for s in itertools.combinations(range(n), r)])
         kw = ch.choose("kwargs", [{}, {"k": 2.5}])
         cs = C[:n]
@@ -281,6 +281,8 @@ def linear_factory(quick, seed):
             ext.def_linear(lin)
         elif api == "defjvp-same":
             ext.defjvp(lin, *["same"] * n)
+        elif api == "defjvp-same-argnums":
+            ext.defjvp(lin, *["same"] * len(diff), argnums=tuple(diff))
         else:
             ext.defjvp(lin, *["same" if i in diff else None for i in range(n)])
         vals = VALS[:n]
@@ -303,6 +305,54 @@ def linear_factory(quick, seed):
         v = None if ok else violation(PROP, "linear", api, "fwd", "raised" if isinstance(got, str) else "wrong-value", dict(api=api, arity=n), ch.choices,
                                       dict(api=api, arity=n, differentiated=list(diff)), got, want, "# multilinear primitive registered with %s" % api)
         return dict(v=v, nontrivial=len(diff) > 1, outcome=(api, n, len(diff)), counts={}, sample=dict(choices=list(ch.choices), api=api, arity=n, differentiated=list(diff)))
+
+    return h, judge
+
+
+def deprecated_factory(quick, seed):
+    """The pre-1.2 method-style registration (p.defvjp(rule, argnum=k), p.defgrad(rule, argnum=k)) still shipped by autograd.core:
+    rules are registered one position at a time, in ANY order; each must stay attached to its own position."""
+    L = lib()
+    ag, np = L["ag"], L["np"]
+
+    def h(ch):
+        n = ch.choose("arity", [1, 2, 3])
+        method = ch.choose("method", ["defvjp", "defgrad"])
+        subset = ch.choose("registered", [s for r in range(1, n + 1) for s in itertools.combinations(range(n), r)])
+        order = ch.choose("order", list(itertools.permutations(subset)))
+        diff = ch.choose("differentiated", [s for r in range(1, len(subset) + 1) for s in itertools.combinations(subset, r)])
+        cs = C[:n]
+        with warnings.catch_warnings():
+            warnings.simplefilter("ignore")
+            from autograd.core import primitive as old_primitive
+
+            @old_primitive
+            def p(*args):
+                return sum(c * a for c, a in zip(cs, args)) ** 2
+            S = lambda args: sum(c * a for c, a in zip(cs, args))
+            for i in order:
+                if method == "defvjp":
+                    p.defvjp((lambda i: lambda g, ans, vs, gvs, *args: g * 2.0 * cs[i] * S(args))(i), argnum=i)
+                else:
+                    p.defgrad((lambda i: lambda ans, *args: lambda g: g * 2.0 * cs[i] * S(args))(i), argnum=i)
+            vals = [v + 0.01 * (seed % 5) for v in VALS[:n]]
+            f = lambda *xs: p(*[xs[diff.index(j)] if j in diff else vals[j] for j in range(n)])
+            try:
+                got = [float(g) for g in ag.grad(f, tuple(range(len(diff))))(*[vals[j] for j in diff])]
+            except Exception as e:
+                got = "%s: %s" % (type(e).__name__, str(e)[:100])
+        Sv = float(sum(c * v for c, v in zip(cs, vals)))
+        want = [2.0 * cs[j] * Sv for j in diff]
+        return method, n, subset, order, diff, got, want
+
+    def judge(ch, out):
+        method, n, subset, order, diff, got, want = out
+        ok = not isinstance(got, str) and onp.allclose(got, want, rtol=1e-12, atol=0)
+        feats = dict(api="deprecated-" + method, arity=n, in_order=list(order) == sorted(order))
+        desc = dict(method=method, arity=n, registered=list(subset), registration_order=list(order), differentiated=list(diff))
+        v = None if ok else violation(PROP, "deprecated", method, "rev", "raised" if isinstance(got, str) else "wrong-value", feats, ch.choices, desc, got, want,
+                                      "# autograd.core.primitive (deprecated method API): p.%s(rule, argnum=k) for k in %r" % (method, list(order)))
+        return dict(v=v, nontrivial=len(order) > 1, outcome=(method, n, tuple(order), tuple(diff)), counts={}, sample=dict(choices=list(ch.choices), **desc))
 
     return h, judge
 
@@ -381,12 +431,12 @@ def checkpoint_factory(quick, seed):
     return h, judge
 
 
-HARNESSES = {"contract": contract_factory, "linear": linear_factory, "checkpoint": checkpoint_factory}
+HARNESSES = {"contract": contract_factory, "linear": linear_factory, "checkpoint": checkpoint_factory, "deprecated": deprecated_factory}
 
 
 def run(ctx):
     rep = Report("exploration")
-    run_harnesses(ctx, rep, __name__, ["contract", "linear", "checkpoint"], depth=4)
+    run_harnesses(ctx, rep, __name__, ["contract", "linear", "checkpoint", "deprecated"], depth=4)
     rep.add(rule="contract: (arity, registered subset, mode, registration API, differentiated positions incl. unregistered ones, trace level per "
                  "argument, kwargs); checkpoint: (program, point, wrapping); non-trivial = several differentiated arguments or two trace levels / >=2 ops")
     rep.assumptions = ["arity <= %d; programs n <= %d over sin/*/+; orders 1..3" % ((3, 3) if ctx.quick else (5, 4)),
